@@ -81,15 +81,15 @@ def plain(v):
     return v
 
 
-def close(a, b, tol=5e-7):
+def close(a, b, tol=5e-7, absolute=False):
     if isinstance(a, dict) and isinstance(b, dict):
-        return a.keys() == b.keys() and all(close(a[k], b[k], tol) for k in a)
+        return a.keys() == b.keys() and all(close(a[k], b[k], tol, absolute) for k in a)
     if isinstance(a, tuple) and isinstance(b, tuple):
-        return len(a) == len(b) and all(close(x, y, tol) for x, y in zip(a, b))
+        return len(a) == len(b) and all(close(x, y, tol, absolute) for x, y in zip(a, b))
     if isinstance(a, (tuple, dict)) or isinstance(b, (tuple, dict)):
         return False
     if isinstance(a, (int, float)) and isinstance(b, (int, float)):
-        return abs(a - b) <= tol * max(1.0, abs(b))
+        return abs(a - b) <= tol * (1.0 if absolute else max(1.0, abs(b)))
     return a == b
 
 
@@ -186,7 +186,9 @@ def r_energy(ctx, model):
                           explanation=f"read_energy fails on the file write_energy produces for data with {label} ({e.exc_name})", instance=f"write -> read ({label})")
             continue
         got, want = plain(back), plain(data)
-        ctx.check(close(got, want, 5e-5 if "1e5" in label else 5e-7), f"read_energy(write_energy(data)) == data ({label})", model.where(f"{QI}:read_energy", rf),
+        # the wide-magnitude reference values are representable at the written precision (6 / 4 decimals): "to the written
+        # precision" is an ABSOLUTE tolerance of half a unit in the last written decimal, whatever the magnitude
+        ctx.check(close(got, want, 1e-6, absolute=True) if "1e5" in label else close(got, want, 5e-7), f"read_energy(write_energy(data)) == data ({label})", model.where(f"{QI}:read_energy", rf),
                   expected=str(want)[:300], found=str(got)[:300],
                   explanation="a field changes place or value in the write/read round trip of the phonon data file (regex groups, field order of "
                               "the records, loop counts, separators or the weight block)", key=f"energy.roundtrip.{label[:7]}")
